@@ -10,16 +10,16 @@ META = {
  "C01": dict(engine="native+miri(+asan in thorough)", category="exploration",
    technique="runtime monitoring: canary actions + drop accounting under real-signal bombardment and failpoint delays/nested raises; Miri and ASan as use-after-free / data-race oracles on the half-lock",
    text="Every removal call observed (tens of thousands per run, thousands with a handler in flight at the call) is followed by canary checks: no invocation in flight after return, none starts later, captured state dropped exactly once, by the remover, at handler depth 0. Miri runs the half-lock with nested readers over many seeds and reports any use of a freed snapshot or data race permitted by the declared orderings. Held on the executions observed, not a proof.",
-   note="x86-TSO for native runs; Miri's weak-memory emulation is sampled; hook sites mark the windows that get widened"),
+   note="x86-TSO for native runs; Miri's weak-memory emulation is sampled; windows are widened at hook sites, and the owner's own calls are also interrupted by a real delivery at single instructions (trap-flag stepping from each writer-side hook arrival)"),
  "C02": dict(engine="native", category="exploration",
    technique="runtime monitoring: event log (CALL/RET of owner ops, DISPATCH_ENTER/EXIT, action tags) checked offline against the per-signal sequence of registry states",
-   text="Each dispatch bracket's run list must equal exactly one registry state that can have been current during the bracket; tens of thousands of brackets overlap an owner operation per run, including deliveries nested on the owner at every writer failpoint.",
+   text="Each dispatch bracket's run list must equal exactly one registry state that can have been current during the bracket; tens of thousands of brackets overlap an owner operation per run, including deliveries nested on the owner at every writer failpoint and at individual instructions after them (trap-flag stepping).",
    note="exactness limited to single-owner signals; definitely-before relations on one SeqCst counter only"),
 }
 META.update({
  "C06": dict(engine="native (+miri in thorough)", category="exploration",
    technique="runtime monitoring: unique-value histories with CALL/RET stamps checked offline against queue bad-patterns (invented, duplicate, FIFO, empty, unjustified discard, loss)",
-   text="Thousands of short, closed histories per run (concurrent producers/consumers, nested batches at failpoints, real-signal senders, threads parked holding indices) are each checked against the complete bad-pattern set for queues with unique values, extended by the lossy rule derived in DESIGN.md. Held on the histories observed.",
+   text="Thousands of short, closed histories per run (concurrent producers/consumers, nested batches at failpoints, real-signal senders, threads parked holding indices, one loop made to lose its compare-exchange up to 12 times in a row, a nested batch at the k-th instruction of send/recv for every k) are each checked against the complete bad-pattern set for queues with unique values, extended by the lossy rule derived in DESIGN.md. Held on the histories observed.",
    note="real-time order observed on x86-TSO only; oracle uses definitely-before relations, so it can miss but not false-alarm"),
  "C07": dict(engine="miri + native (+asan in thorough)", category="exploration",
    technique="Miri data-race/UB/leak detection on the real UnsafeCell accesses under the declared orderings; drop-counting payloads; hook-log cell-section exclusivity check",
@@ -28,23 +28,23 @@ META.update({
  "C08": dict(engine="native (+miri in thorough)", category="fault_enumeration",
    technique="failpoint sweep: nested operations injected at every channel hook site x occurrence x batch kind x fill, park sweep with all other threads frozen, CAS-iteration accounting, real-signal nesting",
    text="Every (site, occurrence, batch, fill, shape) injection is run with panics caught and loop iterations counted; with 1..5 threads parked holding indices a free thread must finish each loop in exactly one iteration and return dropped/None as appropriate.",
-   note="boundaries = hook sites; arbitrary instructions only statistically; spurious CAS failure only under Miri"),
+   note="boundaries = hook sites plus every instruction of send/recv between them (trap-flag stepping: all in thorough, every 6th in quick); spurious CAS failure only under Miri"),
 })
 META.update({
  "C09": dict(engine="native (+asan in thorough)", category="exploration",
    technique="runtime monitoring: burst / quiesce / stable-state probe (/proc thread state, FIONREAD, SigPnd) + offline accounting of deliveries vs yields; real deliveries nested on the consumer at its failpoints",
    text="At every stable point (hundreds per quick run, tens of thousands in thorough) a delivered watched signal - or any signal for which the instance's own action ran, also in the middle of an add_signal - without a later yield, with the consumer blocked on an empty self-pipe, is a refutation that does not depend on timing; a Pending result of poll_signal without an armed wake-up (callback not consulted / last answer not 'nothing') is reported as well. Covers wait, forever and the non-blocking poll interface, three exfiltrators, add_signal from two threads at once with a delivery nested in it.",
-   note="unbounded 'eventually' restated as absence of the stable lost state; windows are widened at hook sites only"),
+   note="unbounded 'eventually' restated as absence of the stable lost state; windows are widened at hook sites, and the scan of a slot is additionally interrupted by a real delivery at every single instruction (trap-flag stepping)"),
  "C10": dict(engine="native (+asan in thorough)", category="exploration",
    technique="runtime monitoring: unique per-delivery sequence numbers, independent witness action copying each siginfo, online accounting rules over the event log",
-   text="Every yield is checked against the deliveries that had begun; every raw record is compared byte-for-byte with the witness copy of the same delivery and checked for duplication and per-signal delivery order; bursts exceed the 5-slot buffer.",
+   text="Every yield is checked against the deliveries that had begun; every raw record is compared byte-for-byte with the witness copy of the same delivery and checked for duplication and per-signal delivery order; bursts exceed the 5-slot buffer. An instruction-step sweep interrupts the scan of a slot at every instruction with a delivery, or lets a second consumer thread drain another batch of the same instance completely at that instruction: never more yields than deliveries, no record twice.",
    note="count bound uses all brackets of the signal since add_signal was called (sound upper bound)"),
 })
 META.update({
  "C11": dict(engine="native", category="fault_enumeration",
    technique="failpoint sweep: consumer (or closer) paused at each iterator hook site while close() runs on another thread; stable-stuck-state probe; callback-consultation log per poll_signal call",
    text="Every (front-end, site, occurrence, delivery) point is run deterministically and a few hundred random-timing trials on top; is_closed is checked on every clone, the consumer must end (forever stays ended, wait never blocks again), and each Pending result must have been preceded in the same call by a callback consultation answering 'nothing'.",
-   note="instants = hook sites x both orders + random + closer and consumer pinned to one CPU; the real async-std stream is run as well (next() racing close()), tokio's is not"),
+   note="instants = hook sites x both orders + every instruction after each consumer hook arrival (close() run to completion by another thread while the consumer stands still there) + random + closer and consumer pinned to one CPU; the real async-std stream is run as well (next() racing close()), tokio's is not"),
 })
 META.update({
  "C12": dict(engine="native forked probes (+valgrind in thorough)", category="exploration",
@@ -78,7 +78,7 @@ META.update({
  "C04": dict(engine="native forked probes", category="fault_enumeration",
    technique="failpoint sweep: a real delivery raised at every step of the first registration (and bombardment of other threads), foreign handler and actions logging unique per-delivery sequence numbers and argument pointers",
    text="Per trial the log must show the previous handler exactly once per delivered sequence number, first, with the kernel's info pointer; hundreds of deliveries per run go through the race-fallback path (the window between sigaction() and the publication of the slot).",
-   note="arrival instants = hook sites deterministically + random bombardment; chaining cannot be run under Miri"),
+   note="arrival instants = hook sites, every instruction between them (trap-flag stepping of the registering thread; all in thorough, every 5th in quick) + random bombardment; chaining cannot be run under Miri"),
  "C05": dict(engine="native forked probes", category="exploration",
    technique="runtime monitoring against an executable reference model (per-signal ordered Vec of (id, tag)) with a delivery after every operation; sigaction(2) and a blocked read(2) as kernel oracles",
    text="About 320k operations per quick run (millions in thorough) over 16 seeds on up to 55 signals; every delivery's ordered run list must equal the model's. A second mode runs 3 owner threads with disjoint signals and one model each: what one thread does to its signals must never change another thread's (catches lost updates between writers).",
